@@ -408,6 +408,7 @@ Section S.
     - destruct (reserved_target (ss_text target)).
       { match goal with |- Os _ (match ?x with Some _ => _ | None => _ end) => destruct x as [v|] end; [|exact I].
         destruct (str_eqb _ _); [exact G|exact I]. }
+      match goal with |- Os _ (if ?c then _ else _) => destruct c end; [exact I|].
       eapply Os_bind; [apply Os_any|]. intros [tid t1] _.
       assert (SInv n0 (with_tabs st t1)) as G1 by exact G.
       eapply Os_bind; [apply (add_node_sound n0 (with_tabs st t1) _ G1); [reflexivity|reflexivity|discriminate]|].
@@ -418,7 +419,7 @@ Section S.
     - cbn. destruct G as (A & B & C & D). split; [exact A|]. split; [exact B|]. split; [exact C|]. cbn. constructor.
     - destruct (str_eqb _ _).
       + eapply Os_bind; [apply Os_any|]. intros uri _. apply builder_prefix_sound. exact G.
-      + destruct (str_eqb _ _).
+      + destruct (_ && _).
         * eapply Os_bind; [apply Os_any|]. intros uri _. apply builder_prefix_sound. exact G.
         * apply builder_attribute_sound. exact G.
     - eapply Os_bind; [apply (open_element_sound n0 st G)|]. intros [st1 n] [H1 H2]. cbn. exact H1.
@@ -474,6 +475,7 @@ Section S.
   Proof.
     unfold parse_document_at. pose proof (brun_sound next ts _ (SInv_new_at (Some (if bom then 3 else 0)) t next)) as H.
     destruct (brun bi (with_dstart (builder_new bi t next) (Some (if bom then 3 else 0))) ts) as [st| | |]; cbn [bbind]; try discriminate. cbn in H.
+    unfold bfinish. destruct (b_eb st); cbn [bbind]; try discriminate.
     destruct (b_stack st) as [|doc [|x rest]] eqn:E.
     - unfold unclosed. rewrite E. discriminate.
     - destruct (top_level_check st (frev (on_kids doc)) []) as [els| | |]; cbn [bbind]; try discriminate.
@@ -490,6 +492,7 @@ Section S.
   Proof.
     unfold parse_fragment. pose proof (brun_sound next ts _ (SInv_new t next)) as H.
     destruct (brun bi (builder_new bi t next) ts) as [st| | |]; cbn [bbind]; try discriminate. cbn in H.
+    unfold bfinish. destruct (b_eb st); cbn [bbind]; try discriminate.
     destruct (b_stack st) as [|doc [|x rest]] eqn:E.
     - unfold unclosed. rewrite E. discriminate.
     - intros Hp. inversion Hp; subst. apply finish_sound; assumption.
